@@ -153,6 +153,40 @@ def liveKeys (m : Mem) : List Nat := (m.store.filter fun ke => ke.2.live m.now).
 def scanSpec (name : Nat → List Char) (m : Mem) (pat : List Char) : List Nat :=
   (liveKeys m).filter fun k => glob pat (name k)
 
+/-! ### 3b. the iteration, step by step
+
+`Memory.scan` is an async generator: between two `__anext__` steps the consumer (or any other task) runs and may
+delete keys, write keys (evicting others when the store is at `size`), let time pass, purge.  The generator takes a
+snapshot `dict(self.store)` — keys WITH their entries — at its first step and from then on never looks at the live
+store: nothing that happens between two steps can make a step fail.  Each step checks the snapshot's deadline against
+the clock of THAT step. -/
+
+/-- one `__anext__` of `Memory.scan` over what is left of the snapshot, at instant `now`: the next key yielded (`none`:
+the iteration is over) and the rest of the snapshot -/
+def scanNext (name : Nat → List Char) (pat : List Char) (now : Nat) : Store → Option Nat × Store
+  | [] => (none, [])
+  | (k, e) :: r => if e.live now && matchRe (translate pat) (name k) then (some k, r) else scanNext name pat now r
+
+/-- a whole iteration: step `i` runs at the instant `nows[i]` (whatever the consumer did in between); it ends when the
+snapshot is exhausted (or the consumer stops asking) -/
+def scanSteps (name : Nat → List Char) (pat : List Char) : List Nat → Store → List Nat
+  | [], _ => []
+  | now :: nows, snap =>
+    match scanNext name pat now snap with
+    | (some k, r) => k :: scanSteps name pat nows r
+    | (none, _) => []
+
+/-- one `__anext__` of `Memory.get_match`: the next scanned key is read from the LIVE store with `get` (a key that
+vanished since the snapshot comes back with the default), bit-field objects are skipped -/
+def getMatchNext (name : Nat → List Char) (bits : Val → Bool) (pat : List Char) :
+    Mem → Store → (Mem × Option (Nat × Option Val)) × Store
+  | m, [] => ((m, none), [])
+  | m, (k, e) :: r =>
+    if e.live m.now && matchRe (translate pat) (name k) then
+      if yielded bits (k, (m.rawGet k).2) then (((m.rawGet k).1, some (k, (m.rawGet k).2)), r)
+      else getMatchNext name bits pat (m.rawGet k).1 r
+    else getMatchNext name bits pat m r
+
 /-! ### 4. inside a transaction (`cashews/backends/transaction.py`, `TransactionBackend`) -/
 
 /-- state of a `TransactionBackend`: the wrapped backend's store, the overlay `_local_cache`
